@@ -1,4 +1,5 @@
-import Zstd.Proofs.FrameDecoderFollows
+import Zstd.Proofs.FrameDecoderStandIn
+import Zstd.Proofs.FrameFaithful
 import Zstd.Props.C15
 /-
 C08 — Content checksums are computed over exactly the delivered bytes (decoder side).
@@ -10,41 +11,44 @@ collect_to_writer with ANY sink script and ANY ring split) and returns the bytes
 `applyOp`/`runOps` run arbitrary interleavings of drain operations, `decode_blocks`, `decode_from_to`
 and `StreamingDecoder::read`, each with an arbitrary source argument.  No bound on anything.
 -/
+set_option linter.unusedSectionVars false
 namespace Zstd.Props.C08
 open Zstd Zstd.Model
+
+variable {σ : Type} [BlockDec σ] [BlockContract σ]
 
 /-- every drain path feeds the hasher exactly the bytes it hands out — for every state, every
 operation, every sink behaviour and every ring split (`hash skipped on the second ring segment` or
 `hash of bytes the sink did not accept` would break this) -/
-theorem drain_hashes_delivered (d : Decoder) (op : DrainOp) :
+theorem drain_hashes_delivered (d : Decoder σ) (op : DrainOp) :
     (applyDrain d op).1.hashed = d.hashed ++ (applyDrain d op).2 :=
   (applyDrain_dstep d op).hashed
 
 /-- … and those bytes are the front of the buffer, the rest stays: nothing lost, nothing duplicated -/
-theorem drain_delivers_front (d : Decoder) (op : DrainOp) :
+theorem drain_delivers_front (d : Decoder σ) (op : DrainOp) :
     (applyDrain d op).2 ++ (applyDrain d op).1.content = d.content := by
   rcases applyDrain_take d op with ⟨hn, he⟩ | ⟨st, k, hs, hk, he⟩
   · rw [he]; simp
   · rw [he]; simp only [Decoder.content, hs]; exact DBuf.take_partition st.buf k
 
 /-- decoding one block never touches the hasher (on any path, errors included) -/
-theorem block_does_not_hash (st : FState) (s : Src) : (decodeOneBlock st s).1.buf.hashed = st.buf.hashed := by
+theorem block_does_not_hash (st : FState σ) (s : Src) : (decodeOneBlock st s).1.buf.hashed = st.buf.hashed := by
   obtain ⟨x, hx, -⟩ := (decodeOneBlock_step st s).appends
   exact hx.hashed
 
 /-- `decode_blocks` never touches the hasher, for every strategy and source -/
-theorem blocks_do_not_hash (d : Decoder) (s : Src) (strat : Strategy) :
+theorem blocks_do_not_hash (d : Decoder σ) (s : Src) (strat : Strategy) :
     (d.decodeBlocks s strat).1.hashed = d.hashed := by
   simpa using (Decoder.decodeBlocks_dstep d s strat).hashed
 
 /-- `reset`/`init` either fails without touching the decoder or re-seeds the hasher -/
-theorem reset_clears_hash (d : Decoder) (s : Src) :
+theorem reset_clears_hash (d : Decoder σ) (s : Src) :
     (∃ e, d.reset s = (d, .err e)) ∨ (d.reset s).1.hashed = #[] := by
   rcases Decoder.reset_cases d s with h | ⟨st, o, h, hr⟩
   · exact Or.inl h
   · right; rw [h]; exact (resetCore_replace _ _ _ _ _ hr).2.2.2.1
 
-theorem reset_ok_clears_hash (d d' : Decoder) (s rest : Src) (h : d.reset s = (d', .ok rest)) :
+theorem reset_ok_clears_hash (d d' : Decoder σ) (s rest : Src) (h : d.reset s = (d', .ok rest)) :
     d'.hashed = #[] := by
   rcases reset_clears_hash d s with ⟨e, he⟩ | h2
   · rw [he] at h; cases h
@@ -52,29 +56,29 @@ theorem reset_ok_clears_hash (d d' : Decoder) (s rest : Src) (h : d.reset s = (d
 
 /-- `decode_from_to` (incl. its implicit `init` on a fresh decoder and the deferred-checksum call):
 hasher advanced by exactly the bytes written to the target -/
-theorem decode_from_to_hashes_delivered (d : Decoder) (s : Src) (n : Nat) :
+theorem decode_from_to_hashes_delivered (d : Decoder σ) (s : Src) (n : Nat) :
     (d.decodeFromTo s n).1.hashed = d.hashed ++ (d.decodeFromTo s n).2.delivered (·.2) :=
   Decoder.decodeFromTo_hashed d s n
 
 /-- `StreamingDecoder::read`: hasher advanced by exactly the bytes returned -/
-theorem streaming_read_hashes_delivered (d : Decoder) (s : Src) (n : Nat) :
+theorem streaming_read_hashes_delivered (d : Decoder σ) (s : Src) (n : Nat) :
     (streamingRead d s n).1.hashed = d.hashed ++ (streamingRead d s n).2.delivered (·.2) :=
   (streamingRead_dstep d s n).hashed
 
 /-- any interleaving of operations: the hasher has seen exactly the concatenation of everything
 delivered, in order -/
-theorem hashed_eq_delivered (d : Decoder) (ops : List Op) :
+theorem hashed_eq_delivered (d : Decoder σ) (ops : List Op) :
     (runOps d ops).1.hashed = d.hashed ++ (runOps d ops).2 :=
   runOps_hashed d ops
 
 /-- … in particular, counted from a successful `reset`: hasher input = bytes delivered since -/
-theorem hashed_eq_delivered_since_reset (d d0 : Decoder) (s rest : Src) (ops : List Op)
+theorem hashed_eq_delivered_since_reset (d d0 : Decoder σ) (s rest : Src) (ops : List Op)
     (h : d.reset s = (d0, .ok rest)) : (runOps d0 ops).1.hashed = (runOps d0 ops).2 := by
   rw [runOps_hashed, reset_ok_clears_hash d d0 s rest h]; simp
 
 /-- `get_calculated_checksum()` = low 32 bits of XXH64(seed 0) of exactly the bytes handed out since
 the reset, in order, for every driver program -/
-theorem checksum_is_hash_of_delivered (d d0 : Decoder) (s rest : Src) (ops : List Op)
+theorem checksum_is_hash_of_delivered (d d0 : Decoder σ) (s rest : Src) (ops : List Op)
     (h : d.reset s = (d0, .ok rest)) :
     (runOps d0 ops).1.calculatedChecksum = some (Spec.Xxh64.checksum32 (runOps d0 ops).2.toList) ∨
     (runOps d0 ops).1.state = none := by
@@ -88,7 +92,7 @@ theorem checksum_is_hash_of_delivered (d d0 : Decoder) (s rest : Src) (ops : Lis
 
 /-- "once all output has been taken": whatever the schedule, delivered ++ still-buffered is the byte
 stream the decode operations produced; with an empty buffer the hasher has seen all of it -/
-theorem delivered_and_buffered_is_stream (d : Decoder) (op : Op) (st st' : FState)
+theorem delivered_and_buffered_is_stream (d : Decoder σ) (op : Op) (st st' : FState σ)
     (h : d.state = some st) (h' : (applyOp d op).1.state = some st') (hfresh : ∀ s n, op ≠ .fromTo s n) :
     ∃ x, st'.buf.hashed ++ st'.buf.content = st.buf.hashed ++ st.buf.content ++ x := by
   have key : ∀ d' dl, DStep d d' dl → d'.state = some st' →
@@ -112,14 +116,15 @@ theorem delivered_and_buffered_is_stream (d : Decoder) (op : Op) (st st' : FStat
 every frame the Spec accepts and every documented driver program that finishes the frame and takes all
 output, `get_calculated_checksum()` = `low32(XXH64(content))` = `get_checksum_from_data()` (when the
 frame carries one) — whatever the drain schedule.  (Model with entropy stand-ins, as in C01.) -/
-theorem valid_frame_checksums_agree (d : Decoder) (f : List Nat) (hb : ∀ x ∈ f, x < 256) (r : Spec.FrameResult)
-    (hs : Spec.decodeFrame f (d.dicts.map Dict.toSpec) = some r) (hlim : r.header.window ≤ d.maxWindow)
+theorem valid_frame_checksums_agree [RefinesSpec σ] (d : Decoder σ) (sdicts : List Spec.Dict)
+    (hdc : DictsCoupled d.dicts sdicts) (f : List Nat) (hb : ∀ x ∈ f, x < 256) (r : Spec.FrameResult)
+    (hs : Spec.decodeFrame f sdicts = some r) (hlim : r.header.window ≤ d.maxWindow)
     (ops : List SOp) :
     ∃ d0 rest, d.reset f = (d0, .ok rest) ∧ (DocOk d0 rest ops →
       ∀ st, (runSched d0 rest ops).1.state = some st → st.finished = true → st.buf.content = #[] →
         (runSched d0 rest ops).1.calculatedChecksum = some (Spec.Xxh64.checksum32 r.content) ∧
         (st.checksum = none ∨ st.checksum = (runSched d0 rest ops).1.calculatedChecksum)) := by
-  obtain ⟨d0, rest, hres, h⟩ := Model.valid_frame_any_schedule d f hb r hs hlim ops
+  obtain ⟨d0, rest, hres, h⟩ := Model.valid_frame_any_schedule d sdicts hdc f hb r hs hlim ops
   refine ⟨d0, rest, hres, fun hdoc st hst hfin hempty => ?_⟩
   obtain ⟨-, st', tail, hst', hh, hc, hf⟩ := h hdoc
   rw [hst] at hst'; cases hst'
@@ -135,17 +140,17 @@ theorem valid_frame_checksums_agree (d : Decoder) (f : List Nat) (hb : ∀ x ∈
 /-! ### `H`-abstractness: only the streaming law of the hash is used -/
 
 /-- a streaming hash: feeding `a` then `b` is feeding `a ++ b` -/
-structure StreamHash (σ : Type) where
-  init : σ
-  update : σ → Array Nat → σ
+structure StreamHash (τ : Type) where
+  init : τ
+  update : τ → Array Nat → τ
   update_empty : ∀ s, update s #[] = s
   law : ∀ s a b, update (update s a) b = update s (a ++ b)
 
 /-- for ANY streaming hash `H`: feeding it the delivered chunks one drain at a time (as the code
 does, per ring segment and per call) gives the state of feeding it the whole delivered stream once -/
-theorem streaming_law_chunks {σ} (H : StreamHash σ) (s : σ) (chunks : List (Array Nat)) :
+theorem streaming_law_chunks {τ} (H : StreamHash τ) (s : τ) (chunks : List (Array Nat)) :
     chunks.foldl H.update s = H.update s (chunks.foldl (· ++ ·) #[]) := by
-  have gen : ∀ (acc : Array Nat) (s : σ), chunks.foldl H.update (H.update s acc)
+  have gen : ∀ (acc : Array Nat) (s : τ), chunks.foldl H.update (H.update s acc)
       = H.update s (chunks.foldl (· ++ ·) acc) := by
     induction chunks with
     | nil => intro acc s; rfl
@@ -155,7 +160,7 @@ theorem streaming_law_chunks {σ} (H : StreamHash σ) (s : σ) (chunks : List (A
 
 /-- every drain operation, seen through ANY streaming hash: new state = old state updated with the
 delivered bytes (`H (hash s) delivered`) -/
-theorem drain_hash_abstract {σ} (H : StreamHash σ) (d : Decoder) (op : DrainOp) :
+theorem drain_hash_abstract {τ} (H : StreamHash τ) (d : Decoder σ) (op : DrainOp) :
     H.update H.init (applyDrain d op).1.hashed = H.update (H.update H.init d.hashed) (applyDrain d op).2 := by
   rw [drain_hashes_delivered, H.law]
 
@@ -176,23 +181,23 @@ theorem xxh64_of_concatenation (a b : Array Nat) :
 def demoFrame : List Nat := [0x28, 0xB5, 0x2F, 0xFD, 0x24, 3, 0x19, 0, 0, 97, 98, 99, 1, 2, 3, 4]
 
 /-- the hypothesis `d.reset s = (d0, .ok rest)` is satisfiable … -/
-example : ∃ d0 rest, ({} : Decoder).reset demoFrame = (d0, .ok rest) := by
-  have h : (({} : Decoder).reset demoFrame).2.isOk = true := by decide +kernel
-  generalize ({} : Decoder).reset demoFrame = r at h
+example : ∃ d0 rest, ({} : DecA).reset demoFrame = (d0, .ok rest) := by
+  have h : (({} : DecA).reset demoFrame).2.isOk = true := by decide +kernel
+  generalize ({} : DecA).reset demoFrame = r at h
   obtain ⟨d0, o⟩ := r
   cases o <;> simp [Out.isOk] at h
   exact ⟨_, _, rfl⟩
 
 /-- … and programs do deliver bytes (block, then a partial read, then collect) -/
-example : (runOps (({} : Decoder).reset demoFrame).1
+example : (runOps (({} : DecA).reset demoFrame).1
     [.blocks (demoFrame.drop 6) .all, .drain (.read 2), .drain .collect]).2 = #[97, 98, 99] := by
   decide +kernel
 
 /-- a sink that takes one byte and then fails: exactly that byte is delivered (and hashed) -/
-example : (applyDrain (runOps (({} : Decoder).reset demoFrame).1 [.blocks (demoFrame.drop 6) .all]).1
+example : (applyDrain (runOps (({} : DecA).reset demoFrame).1 [.blocks (demoFrame.drop 6) .all]).1
     (.toWriter 2 [.accept 1, .fail])).2 = #[97] := by decide +kernel
 
-example : (applyDrain (runOps (({} : Decoder).reset demoFrame).1 [.blocks (demoFrame.drop 6) .all]).1
+example : (applyDrain (runOps (({} : DecA).reset demoFrame).1 [.blocks (demoFrame.drop 6) .all]).1
     (.toWriter 2 [.accept 1, .fail])).1.hashed = #[97] := by decide +kernel
 
 /-! ## Compressor side
@@ -218,5 +223,25 @@ open Zstd.Model.Enc Zstd.Proofs.Enc in
 /-- the header announces the checksum exactly when hashing is enabled (Content_Checksum_flag = bit 2 of the descriptor) -/
 theorem compressor_checksum_flag (hash : Bool) : (frameDescriptor hash / 4) % 2 = (if hash then 1 else 0) := by
   cases hash <;> decide
+
+
+/-! ### instance B: the decoder the drivers run (faithful block decoder, Model/FrameFaithful.lean) -/
+
+theorem checksum_is_hash_of_delivered_faithful (d d0 : DecB) (s rest : Src) (ops : List Op)
+    (h : d.reset s = (d0, .ok rest)) :
+    (runOps d0 ops).1.calculatedChecksum = some (Spec.Xxh64.checksum32 (runOps d0 ops).2.toList) ∨
+    (runOps d0 ops).1.state = none :=
+  checksum_is_hash_of_delivered d d0 s rest ops h
+
+/-- `valid_frame_checksums_agree` for the faithful decoder (no hypotheses: `instRefinesSpecFaithful`) -/
+theorem valid_frame_checksums_agree_faithful (d : DecB) (sdicts : List Spec.Dict)
+    (hdc : DictsCoupled d.dicts sdicts) (f : List Nat) (hb : ∀ x ∈ f, x < 256) (r : Spec.FrameResult)
+    (hs : Spec.decodeFrame f sdicts = some r) (hlim : r.header.window ≤ d.maxWindow)
+    (ops : List SOp) :
+    ∃ d0 rest, d.reset f = (d0, .ok rest) ∧ (DocOk d0 rest ops →
+      ∀ st, (runSched d0 rest ops).1.state = some st → st.finished = true → st.buf.content = #[] →
+        (runSched d0 rest ops).1.calculatedChecksum = some (Spec.Xxh64.checksum32 r.content) ∧
+        (st.checksum = none ∨ st.checksum = (runSched d0 rest ops).1.calculatedChecksum)) :=
+  valid_frame_checksums_agree d sdicts hdc f hb r hs hlim ops
 
 end Zstd.Props.C08
